@@ -94,6 +94,27 @@ class Plan:
 PLAN = Plan()
 LOGFILE = None
 
+# Path.touch() is what the cache uses to mark a hit as recently used.  The kernel's file time
+# stamps are coarse (two touches within a few ms can tie), so inside this runner a touch writes an
+# explicit, strictly increasing stamp (operation start + k microseconds): hits touched in one
+# request are ordered by the order of the touch calls, and all of them are older than the
+# downloads of the same request (which are stamped operation start + 1 s + position).
+import pathlib  # noqa: E402
+_TOUCH_SEQ = [0]
+_orig_touch = pathlib.Path.touch
+
+
+def _ordered_touch(self, mode=0o666, exist_ok=True):
+    if exist_ok and os.path.exists(self):
+        _TOUCH_SEQ[0] += 1
+        stamp = PLAN.t0 + _TOUCH_SEQ[0] * 1000
+        os.utime(self, ns=(stamp, stamp))
+        return None
+    return _orig_touch(self, mode, exist_ok)
+
+
+pathlib.Path.touch = _ordered_touch
+
 
 def rk_of_path(path):
     b = os.path.basename(path)
@@ -302,6 +323,7 @@ class Runner:
             u = uri_of(r, k)
             uris.append((";".join(d) + ":" + u) if d else u)
         PLAN.t0 = time.time_ns()
+        _TOUCH_SEQ[0] = 0
         arg = uris[0] if (len(uris) == 1 and op.get("single")) else uris
         try:
             if self.h.get("via_module"):
